@@ -276,7 +276,23 @@ pub const OUT_VIOL: u8 = 2;
 pub fn check_parse<T: HexTy>(c: &mut Collector, s: &str) -> (u8, u64) {
     IN_SUBJECT.with(|f| f.set(true));
     let obs = pv::catch(|| T::from_str(s));
+    // the `from_hex` constructors are a second entry point to the same parser: same verdict, same value
+    let obs2 = pv::catch(|| T::via_from_hex(s));
     IN_SUBJECT.with(|f| f.set(false));
+    let agree = match (&obs, &obs2) {
+        (Ok(Ok(a)), Ok(Ok(b))) => a.chan() == b.chan(),
+        (Ok(Err(_)), Ok(Err(_))) => true,
+        (Err(_), Err(_)) => true,
+        _ => false,
+    };
+    if !agree {
+        let show = |r: &Result<Result<T, FromHexError>, String>| match r {
+            Ok(Ok(v)) => json!({"accepted": v.show()}),
+            Ok(Err(e)) => json!({"error": e.to_string()}),
+            Err(m) => json!({"panic": m}),
+        };
+        c.violation(&format!("C12/parse-strict/{}/from_hex-vs-from_str", T::NAME), 1.0, || json!({"sub": "parse", "ty": T::NAME, "input": s, "input_bytes": hex_bytes(s), "class": "from_hex", "observed": {"from_hex": show(&obs2)}, "expected": {"from_str": show(&obs)}}));
+    }
     let exp = ref_parse(s, T::NCH, T::DIGITS);
     let (kind, observed): (&str, Value) = match (&obs, &exp) {
         (Ok(Err(_)), None) => return (OUT_REJECT, 0),
